@@ -33,23 +33,56 @@ Section Call.
   Notation fn := (fname p).
   Hypothesis Hfuns : funs_ok p.
 
-  Lemma Ca_step : forall n, B p n -> Ca p (S n).
+  (* the CALL instruction: pop the arguments, expand ** and *, then call the value *)
+  Lemma call_insn : forall fid C fv K pc σ L I g w f args nm sa ss ps,
+    exec_insn cp fn (CALL (mode_of sa ss) (length args) (length nm) ps)
+      {| fr_fid := fid; fr_code := C; fr_pc := pc; fr_stack := optl ss ++ optl sa ++ rev (flatkw nm) ++ rev args ++ f :: σ;
+         fr_locals := L; fr_iters := I; fr_free := fv |} K g w
+    = of_pres (starstar_args ss w) ps w (fun kw2 =>
+      of_pres (star_args sa w) ps w (fun pos2 =>
+        call_value cp fn
+          {| fr_fid := fid; fr_code := C; fr_pc := pc; fr_stack := optl ss ++ optl sa ++ rev (flatkw nm) ++ rev args ++ f :: σ;
+             fr_locals := L; fr_iters := I; fr_free := fv |} K g w (S pc) σ ps f (args ++ pos2) (nm ++ kw2))).
   Proof.
-    intros n IHB.
-    unfold Ca; intros stk f args nm ps s fid C fv K pc σ ρ I Hstk Hf.
+    intros.
     assert (Hpop : popn (length args) (rev args ++ f :: σ) [] = Some (args, f :: σ)) by apply popn_rev.
     assert (Hpk : popn (2 * length nm) (rev (flatkw nm) ++ rev args ++ f :: σ) [] = Some (flatkw nm, rev args ++ f :: σ)) by apply popn_flatkw.
     simpl Nat.mul in Hpk.
     assert (Hpairs : pairs_of (flatkw nm) = Some nm) by apply pairs_flatkw.
+    destruct sa as [sav|], ss as [ssv|]; unfold exec_insn; simpl;
+      rewrite Hpk; simpl; rewrite Hpairs; simpl; rewrite Hpop; reflexivity.
+  Qed.
+
+  Lemma Ca_step : forall n, B p n -> Ca p (S n).
+  Proof.
+    intros n IHB.
+    unfold Ca; intros stk f args0 nm0 sa ss ps s fid C fv K pc σ ρ I Hstk Hf.
+    unfold ref_call.
+    assert (Hstep : step cp fn (S1 fid C fv K pc (optl ss ++ optl sa ++ rev (flatkw nm0) ++ rev args0 ++ f :: σ) ρ I s)
+                    = of_pres (starstar_args ss (rw s)) ps (rw s) (fun kw2 =>
+                      of_pres (star_args sa (rw s)) ps (rw s) (fun pos2 =>
+                        call_value cp fn
+                          {| fr_fid := fid; fr_code := C; fr_pc := pc;
+                             fr_stack := optl ss ++ optl sa ++ rev (flatkw nm0) ++ rev args0 ++ f :: σ;
+                             fr_locals := env_vals ρ; fr_iters := I; fr_free := fv |} K (rg s) (rw s) (S pc) σ ps f
+                          (args0 ++ pos2) (nm0 ++ kw2)))).
+    { unfold S1, St, Fr. rewrite (step_lit _ _ _ _ _ _ _ _ _ _ _ _ _ Hf). apply call_insn. }
+    destruct (starstar_args ss (rw s)) as [kw2| |t] eqn:Ekw; cbn [lift sim].
+    2: { apply halts_now. rewrite Hstep. reflexivity. }
+    2: { apply halts_now. rewrite Hstep. reflexivity. }
+    destruct (star_args sa (rw s)) as [pos2| |t] eqn:Epos; cbn [lift sim].
+    2: { apply halts_now. rewrite Hstep. reflexivity. }
+    2: { apply halts_now. rewrite Hstep. reflexivity. }
+    cbn [of_pres] in Hstep.
+    set (args := args0 ++ pos2) in *. set (nm := nm0 ++ kw2) in *.
+    set (S0 := S1 fid C fv K pc (optl ss ++ optl sa ++ rev (flatkw nm0) ++ rev args0 ++ f :: σ) ρ I s) in *.
     simpl call.
     destruct f;
-      try (cbn [sim]; norm_state; apply halts_now; rewrite (step_lit _ _ _ _ _ _ _ _ _ _ _ _ _ Hf); simpl;
-           rewrite Hpk; simpl; rewrite Hpairs; simpl; rewrite Hpop; simpl; reflexivity).
+      try (cbn [sim]; apply halts_now; rewrite Hstep; reflexivity).
     - (* VFun *)
       pose proof (Hfuns fid0) as Hfid. unfold compile_prog in Hfid; cbn [cp_funs] in Hfid.
       destruct (find_def p fid0) as [[fd encl]|].
-      2: { cbn [sim]. norm_state. apply halts_now. rewrite (step_lit _ _ _ _ _ _ _ _ _ _ _ _ _ Hf). simpl.
-           rewrite Hpk. simpl. rewrite Hpairs. simpl. rewrite Hpop. simpl. rewrite Hfid. reflexivity. }
+      2: { cbn [sim]. apply halts_now. rewrite Hstep. unfold call_value. simpl. rewrite Hfid. reflexivity. }
       destruct Hfid as [Hfd [-> Hfc]].
       (* recursion check *)
       assert (Hrec : existsb (Nat.eqb fid0) stk =
@@ -63,24 +96,20 @@ Section Call.
       apply andb_true_iff in Hfd. destruct Hfd as [Hps Hbody].
       destruct (boxed_names (fd_body fd)) eqn:Ebx; [clear Hbx | discriminate].
       destruct (negb (o_recursion (p_opts p)) && existsb (Nat.eqb fid0) stk) eqn:Erec.
-      { cbn [sim]. norm_state. apply halts_now. rewrite (step_lit _ _ _ _ _ _ _ _ _ _ _ _ _ Hf). simpl.
-        rewrite Hpk. simpl. rewrite Hpairs. simpl. rewrite Hpop. simpl. rewrite Hfc; simpl; rewrite ?cp_rec, <- ?Hrec, ?Erec. reflexivity. }
+      { cbn [sim]. apply halts_now. rewrite Hstep. unfold call_value. simpl. rewrite Hfc; simpl; rewrite ?cp_rec, <- ?Hrec, ?Erec. reflexivity. }
       destruct (bind_args (fd_params fd) defaults args nm (rw s)) as [[params w1]| |t] eqn:Eb; cbn [lift_call sim].
-      2: { norm_state. apply halts_now. rewrite (step_lit _ _ _ _ _ _ _ _ _ _ _ _ _ Hf). simpl.
-           rewrite Hpk. simpl. rewrite Hpairs. simpl. rewrite Hpop. simpl. rewrite Hfc; simpl; rewrite ?cp_rec, <- ?Hrec, ?Erec; simpl; rewrite ?app_nil_r, ?cf_params, ?Eb. reflexivity. }
-      2: { norm_state. apply halts_now. rewrite (step_lit _ _ _ _ _ _ _ _ _ _ _ _ _ Hf). simpl.
-           rewrite Hpk. simpl. rewrite Hpairs. simpl. rewrite Hpop. simpl. rewrite Hfc; simpl; rewrite ?cp_rec, <- ?Hrec, ?Erec; simpl; rewrite ?app_nil_r, ?cf_params, ?Eb. reflexivity. }
+      2: { apply halts_now. rewrite Hstep. unfold call_value. simpl. rewrite Hfc; simpl; rewrite ?cp_rec, <- ?Hrec, ?Erec; simpl; rewrite ?cf_params, ?Eb. reflexivity. }
+      2: { apply halts_now. rewrite Hstep. unfold call_value. simpl. rewrite Hfc; simpl; rewrite ?cp_rec, <- ?Hrec, ?Erec; simpl; rewrite ?cf_params, ?Eb. reflexivity. }
       destruct (new_vars_nil_boxed (locals_of fd) (map Some params) w1) as [ρl [Hnv [Hwl [Hml Hvl]]]].
       rewrite Hnv. rewrite filter_no_names. simpl map. rewrite app_nil_r.
       (* the machine enters the callee *)
       set (caller := {| fr_fid := fid; fr_code := C; fr_pc := S pc; fr_stack := σ; fr_locals := env_vals ρ;
                         fr_iters := I; fr_free := fv |}).
       set (C' := gen_body p (locals_of fd) (fd_body fd)).
-      assert (Henter : star cp fn (S1 fid C fv K pc (rev (flatkw nm) ++ rev args ++ VFun fid0 defaults free :: σ) ρ I s)
+      assert (Henter : star cp fn S0
                          (S1 (Some fid0) C' [] (caller :: K) 0 [] ρl [] (with_w s w1))).
-      { norm_state. eapply star_step; [ | apply star_refl ].
-        rewrite (step_lit _ _ _ _ _ _ _ _ _ _ _ _ _ Hf). simpl.
-        rewrite Hpk. simpl. rewrite Hpairs. simpl. rewrite Hpop. simpl. rewrite Hfc; simpl; rewrite ?cp_rec, <- ?Hrec, ?Erec; simpl; rewrite ?app_nil_r, ?cf_params, ?Eb.
+      { unfold S1 at 1, St, Fr. eapply star_step; [ | apply star_refl ].
+        rewrite Hstep. unfold call_value. simpl. rewrite Hfc; simpl; rewrite ?cp_rec, <- ?Hrec, ?Erec; simpl; rewrite ?cf_params, ?Eb.
         simpl. rewrite ?cf_nlocals, ?cf_cells, ?cf_free, ?cf_code, ?filter_no_names. simpl. rewrite ?Hlay, ?Hvl. reflexivity. }
       assert (Hcode : pcode_at C' 0 (gen_block p (map fst ρl) (fd_body fd) ++ [NONE; RETURN]) None None).
       { rewrite Hml. apply pcode_finalize. }
@@ -104,19 +133,42 @@ Section Call.
       + hstar Henter. exact IH.
     - (* VBuiltin *)
       destruct (call_builtin fn name None args nm (rw s)) as [[r w]| |t] eqn:Ec; cbn [lift sim fst snd].
-      + norm_state. eapply star_step; [ | apply star_refl ].
-        rewrite (step_lit _ _ _ _ _ _ _ _ _ _ _ _ _ Hf). simpl. rewrite Hpk. simpl. rewrite Hpairs. simpl. rewrite Hpop. simpl. rewrite !app_nil_r, Ec. reflexivity.
-      + norm_state. apply halts_now.
-        rewrite (step_lit _ _ _ _ _ _ _ _ _ _ _ _ _ Hf). simpl. rewrite Hpk. simpl. rewrite Hpairs. simpl. rewrite Hpop. simpl. rewrite !app_nil_r, Ec. reflexivity.
-      + norm_state. apply halts_now.
-        rewrite (step_lit _ _ _ _ _ _ _ _ _ _ _ _ _ Hf). simpl. rewrite Hpk. simpl. rewrite Hpairs. simpl. rewrite Hpop. simpl. rewrite !app_nil_r, Ec. reflexivity.
+      + eapply star_step; [ | apply star_refl ].
+        rewrite Hstep. unfold call_value. simpl. rewrite Ec. reflexivity.
+      + apply halts_now.
+        rewrite Hstep. unfold call_value. simpl. rewrite Ec. reflexivity.
+      + apply halts_now.
+        rewrite Hstep. unfold call_value. simpl. rewrite Ec. reflexivity.
     - (* VMethod *)
       destruct (call_builtin fn name (Some f) args nm (rw s)) as [[r w]| |t] eqn:Ec; cbn [lift sim fst snd].
-      + norm_state. eapply star_step; [ | apply star_refl ].
-        rewrite (step_lit _ _ _ _ _ _ _ _ _ _ _ _ _ Hf). simpl. rewrite Hpk. simpl. rewrite Hpairs. simpl. rewrite Hpop. simpl. rewrite !app_nil_r, Ec. reflexivity.
-      + norm_state. apply halts_now.
-        rewrite (step_lit _ _ _ _ _ _ _ _ _ _ _ _ _ Hf). simpl. rewrite Hpk. simpl. rewrite Hpairs. simpl. rewrite Hpop. simpl. rewrite !app_nil_r, Ec. reflexivity.
-      + norm_state. apply halts_now.
-        rewrite (step_lit _ _ _ _ _ _ _ _ _ _ _ _ _ Hf). simpl. rewrite Hpk. simpl. rewrite Hpairs. simpl. rewrite Hpop. simpl. rewrite !app_nil_r, Ec. reflexivity.
+      + eapply star_step; [ | apply star_refl ].
+        rewrite Hstep. unfold call_value. simpl. rewrite Ec. reflexivity.
+      + apply halts_now.
+        rewrite Hstep. unfold call_value. simpl. rewrite Ec. reflexivity.
+      + apply halts_now.
+        rewrite Hstep. unfold call_value. simpl. rewrite Ec. reflexivity.
+  Qed.
+
+  (* without fuel for the call itself, only the expansion of ** and * is observed *)
+  Lemma Ca_zero : Ca p 0.
+  Proof.
+    unfold Ca; intros stk f args0 nm0 sa ss ps s fid C fv K pc σ ρ I Hstk Hf.
+    unfold ref_call.
+    assert (Hstep : step cp fn (S1 fid C fv K pc (optl ss ++ optl sa ++ rev (flatkw nm0) ++ rev args0 ++ f :: σ) ρ I s)
+                    = of_pres (starstar_args ss (rw s)) ps (rw s) (fun kw2 =>
+                      of_pres (star_args sa (rw s)) ps (rw s) (fun pos2 =>
+                        call_value cp fn
+                          {| fr_fid := fid; fr_code := C; fr_pc := pc;
+                             fr_stack := optl ss ++ optl sa ++ rev (flatkw nm0) ++ rev args0 ++ f :: σ;
+                             fr_locals := env_vals ρ; fr_iters := I; fr_free := fv |} K (rg s) (rw s) (S pc) σ ps f
+                          (args0 ++ pos2) (nm0 ++ kw2)))).
+    { unfold S1, St, Fr. rewrite (step_lit _ _ _ _ _ _ _ _ _ _ _ _ _ Hf). apply call_insn. }
+    destruct (starstar_args ss (rw s)) as [kw2| |t] eqn:Ekw; cbn [lift sim].
+    2: { apply halts_now. rewrite Hstep. reflexivity. }
+    2: { apply halts_now. rewrite Hstep. reflexivity. }
+    destruct (star_args sa (rw s)) as [pos2| |t] eqn:Epos; cbn [lift sim].
+    2: { apply halts_now. rewrite Hstep. reflexivity. }
+    2: { apply halts_now. rewrite Hstep. reflexivity. }
+    simpl. exact Logic.I.
   Qed.
 End Call.
